@@ -474,6 +474,19 @@ def event_precedence(ctx, P, views, before):
                 order = [k.value for k in it.keys]
             if order is not None and not sc.strict:
                 order = list(reversed(order))       # `<=`: the later of two equal candidates is kept
+        if order is None:
+            # `min(L, key=...)` with L = [... for t in <literal sequence> ...]: min keeps the first of equal candidates, so the literal order decides ties
+            def literal_order(it):
+                if isinstance(it, (ast.List, ast.Tuple)) and it.elts and all(isinstance(e, ast.Constant) for e in it.elts):
+                    return [e.value for e in it.elts]
+                if isinstance(it, ast.Dict) and it.keys and all(isinstance(k, ast.Constant) for k in it.keys):
+                    return [k.value for k in it.keys]
+                return None
+            for x in ast.walk(fn):
+                if isinstance(x, ast.Call) and isinstance(x.func, ast.Name) and x.func.id == "min" and len(x.args) == 1 and isinstance(x.args[0], ast.Name):
+                    ds = [y for y in ast.walk(fn) if isinstance(y, ast.Assign) and any(isinstance(t, ast.Name) and t.id == x.args[0].id for t in y.targets)]
+                    if len(ds) == 1 and isinstance(ds[0].value, ast.ListComp) and len(ds[0].value.generators) == 1:
+                        order = literal_order(ds[0].value.generators[0].iter)
         ob.ok("%s.decide_next_event" % view.name, "tie order %s" % order)
         if order is None:
             ctx.violation(ob, "R6.tie-order", "%s.decide_next_event" % cls.name, "selection", "tie-order-not-fixed",
